@@ -239,6 +239,7 @@ class UDom(ValueDomain):
                     ((f == "MPI_Allreduce" and i == 1) or (f == "MPI_Bcast" and i == 0) or
                      (f.startswith("MPI_Allgather") and i == 3)):
                 st = self.set_taint(st, key, False)
+                st = st.set(("$c", key), fin(1))      # holds the result of a collective: the same value on every rank
             elif f == "MPI_Allreduce" and i == 0:
                 pass
             else:
@@ -794,6 +795,22 @@ class Walker:
             edges = [(succ, s2) for succ, s2 in edges if succ != succs[0] or succs[0] == succs[1]]
         if not edges:
             return self.dd.EMPTY
+        if c is not None and len(succs) == 2 and len(edges) == 1 and succs[0] != succs[1] and blk.term != "switch" \
+                and not dom.varying(c, st) and self.collective_result(c, st):
+            # The value domain pruned one side because of this rank's own contribution to a collective result (its
+            # failing status makes the MPI_MIN result failing).  The tested value is the same on every rank, so the
+            # outcome is a fact about all of them: it restricts the valuation, otherwise this path would be paired
+            # with another rank's opposite outcome.
+            succ, s2 = edges[0]
+            d = self.lang(succ, 0, s2)
+            atom, negated = atom_norm(strip_pre(c))
+            if self.unstable_local(c):
+                atom = "%s @%s:%s" % (atom, self.fn.name, blk.tl)
+            elif mentions_local(c):
+                atom = self.origin_text(atom, c, st)
+            truth = (succ == succs[0]) != negated
+            a = self.dd.atom(atom)
+            return self.dd.ite(a, d, self.dd.EMPTY) if truth else self.dd.ite(a, self.dd.EMPTY, d)
         if blk.term == "switch" or c is None or len(succs) != 2 or len(edges) == 1:
             out = self.dd.EMPTY
             subs = []
@@ -850,6 +867,19 @@ class Walker:
             if r is not None:
                 return Lt if r else Lf
         v = self.dom.eval(c, st)
+        if (not v.may_be_zero() or not v.may_be_nonzero()) and not self.dom.varying(c, st) and self.collective_result(c, st):
+            # This rank knows the outcome from its own contribution (its failing status makes the MPI_MIN result
+            # failing), but the tested value is the same on every rank: the outcome is a fact about all of them and
+            # has to restrict the valuation, or this path is paired with another rank's opposite outcome.
+            atom, negated = atom_norm(c)
+            if self.unstable_local(c):
+                atom = "%s @%s:%s" % (atom, self.fn.name, blk.tl)
+            elif mentions_local(c):
+                atom = self.origin_text(atom, c, st)
+            a = dd.atom(atom)
+            if not v.may_be_zero():
+                return dd.ite(a, dd.EMPTY, Lt) if negated else dd.ite(a, Lt, dd.EMPTY)
+            return dd.ite(a, Lf, dd.EMPTY) if negated else dd.ite(a, dd.EMPTY, Lf)
         if not v.may_be_zero():
             return Lt
         if not v.may_be_nonzero():
@@ -865,6 +895,13 @@ class Walker:
         a = dd.atom(atom)
         hi, lo = (Lf, Lt) if negated else (Lt, Lf)
         return dd.ite(a, hi, lo)
+
+    def collective_result(self, c, st):
+        for x in walk(c, into_pre=True):
+            if x.get("k") == "ref" and x.get("dk") in ("local", "param"):
+                if st.has(("$c", lvalue_key(x))):
+                    return True
+        return False
 
     def origin_text(self, atom, c, st):
         """name an atom over stable locals/parameters by where their values come from, so that the same
